@@ -97,7 +97,7 @@ CODEC_ASSUME = ["schemas enter as the generator's intermediate JSON (the Java sc
 CODEC_TRUST = ["reflection bridge mc/bind (checked for identity AV->Go->AV on every case)", "reference codecs mc/ref", "schema universes mc/schema"]
 
 
-def codec_check(prop, part, level, rule, assumptions=(), gens=("v2", "root"), deadline_q=900, deadline_t=3300, universes=None):
+def codec_check(prop, part, level, rule, assumptions=(), gens=("v2", "root"), deadline_q=900, deadline_t=3300, universes=None, maprot=False):
     def fn(sc, tier, replay, t0):
         universe = "codec-full" if tier == "thorough" else "codec-quick"
         if universes:
@@ -109,13 +109,22 @@ def codec_check(prop, part, level, rule, assumptions=(), gens=("v2", "root"), de
             gl = [doc.get("gen", "v2")]
             universe = doc.get("universe", universe)
         for gen in gl:
-            binary = D.build_with_bindings(sc, gen, "codec", universe)
+            ov = None
+            if maprot:
+                import c12
+                ov = c12.maprot_overlay(sc)
+            binary = D.build_with_bindings(sc, gen, "codec", universe, overlay=ov)
             env = {"VERIF_UNIVERSE": universe}
             if replay:
                 p = subprocess.run([binary, "-gen", gen, "-replay", replay], env=dict(D.goenv(), **env))
                 return p.returncode
-            reports += D.run_shards(binary, gen, tier, max(1, D.NCPU // len(gl)), os.path.join(sc.dir, "out"),
+            nsh = max(1, D.NCPU // len(gl))
+            if maprot:
+                # one process per map-iteration start: every start bucket / slot of maps up to 2 (64: 8) buckets
+                nsh = 64 if tier == "thorough" else 16
+            reports += D.run_shards(binary, gen, tier, nsh, os.path.join(sc.dir, "out"),
                                     extra_args=["-part", part], env=env,
+                                    env_fn=(lambda i: {"VERIF_MAPROT": str(i)}) if maprot else None,
                                     deadline=(deadline_t if tier == "thorough" else deadline_q))
         merged = D.merge_reports(reports)
         return D.finish(prop, tier, level, merged, t0, rule=rule, assumptions=CODEC_ASSUME + list(assumptions),
@@ -320,11 +329,13 @@ def C17(sc, tier, replay, t0):
         extra_cov={"race_pass": race_runs})
 
 
-C09 = codec_check("C09", "C09", "model_checking", gens=("v2",),
-    rule="exhaustive at the seam where order enters: every permutation of keyWriter call order (n<=5, thorough 6) for WriteMap on all five writers x 4 key sets (prefix pairs, case, non-ASCII, empty, reserved characters) x {flat, nested} x {no exclusion, one key excluded}; every permutation of parameter order through BuildQueryParams; every insertion order of keys into string / int64 / bytes / hash-colliding key sets; outputs must be byte-identical across orders with keys, parameters and ids ascending; Equal values (copies, map-insertion-order rebuilds) must encode identically in all 5 formats, also after a warm-up of unrelated encodes; supplementary (not exhaustive): 64 re-encodings from freshly built Go maps and an encoding digest compared across the shard processes; states = key sets / values, transitions = encode calls",
-    assumptions=["Go map iteration order cannot be owned: the layers that range over a Go map are covered by repetition only (labelled supplementary); a removed sort is caught deterministically by the seam check",
+C09 = codec_check("C09", "C09", "model_checking", gens=("v2",), maprot=True,
+    rule="exhaustive at the seam where order enters: every permutation of keyWriter call order (n<=5, thorough 6) for WriteMap on all five writers x 4 key sets (prefix pairs, case, non-ASCII, empty, reserved characters) x {flat, nested} x {no exclusion, one key excluded}; every permutation of parameter order through BuildQueryParams; every insertion order of keys into string / int64 / bytes / hash-colliding key sets; outputs must be byte-identical across orders with keys, parameters and ids ascending; Equal values (copies, map-insertion-order rebuilds) must encode identically in all 5 formats, also after a warm-up of unrelated encodes; the whole pool of map-bearing values is encoded in one process per Go map-iteration start (runtime overlay; 16 starts quick, 64 thorough) and the digests must agree; supplementary: 64 re-encodings from freshly built maps inside each process; states = key sets / values, transitions = encode calls",
+    assumptions=["Go map iteration order is owned through a runtime overlay (lib/c12.py maprot_overlay): one process per iteration start VERIF_MAPROT with fixed hash seeds; one global start per process is enumerated, not independent starts per iteration",
                  "v2 only, as the property states"])
 
 
 C11 = codec_check("C11", "C11", "model_checking", universes=("constraints", "constraints"),
     rule="exhaustive enumeration of constraint-violating and constraint-satisfying values and documents on generated bindings: unions (5 unions, every subset of members set, documents with 0/1/2 members, unknown member) both directions in JSON and ROR2; fixed (sizes 1, 2, 16 x payload lengths 0..size+2); enums (constants -1..n+1; symbol strings declared / unknown / wrong case / padded / numeric); partial updates (4 records x every assignment of a subset of {delete, set, nested patch} to each field with a family of nested patches x 3 exclusion specs): encode errors iff the constraint is violated, decoding the equivalent reference document errors iff violated, legal patches emit the protocol's patch/$set/$delete document and round-trip; states = values / patches, transitions = encode or decode calls")
+
+from c12 import C12
